@@ -101,3 +101,4 @@ func VH_C08_bounds_quad_Q() {
 		vAssert("C08.bounds.quad.inside_fastbounds", f.X0 <= b0 && b1 <= f.X1)
 	}
 }
+
